@@ -293,7 +293,10 @@ PfokBad(r) ==
                /\ r.calc_xa = 1 /\ r.calc_xb = 1 /\ r.calc_ua = 1 /\ r.calc_ub = 1
                /\ r.rcDH_pub0 # 0 /\ r.rcDH_pubp # 0 /\ r.rcMTI_pub0 # 0 /\ r.rcMTI_pubp # 0
                /\ (Has(r, "rcDH_privbig") => r.rcDH_privbig # 0 /\ r.rcCalc_privbig # 0)
-      agreeOk == /\ r.rcDH_a = 0 /\ r.rcDH_b = 0 /\ r.dh_a = r.dh_b
+      \* the shared key is n bits of the common value: [O_OF_B(n)] octets with nothing above bit n - 1
+      nbits(x) == Len(x) = (r.n + 7) \div 8 /\ BitLen(Num(x)) <= r.n
+      agreeOk == /\ nbits(r.dh_a) /\ nbits(r.dh1_a) /\ nbits(r.mti_a)
+                 /\ r.rcDH_a = 0 /\ r.rcDH_b = 0 /\ r.dh_a = r.dh_b
                  /\ r.rcDH1_a = 0 /\ r.rcDH1_b = 0 /\ r.dh1_a = r.dh1_b
                  /\ r.rcMTI_a = 0 /\ r.rcMTI_b = 0 /\ r.mti_a = r.mti_b
                  /\ (HeavySign(r) => /\ Eq(Num(r.dh_a), PfokDH(P, ua, vb))
